@@ -3,6 +3,6 @@ CHECKS = [
           technique="property-based testing (rapid): purity across calls / fresh instances / a separately started process, nesting in the rate, statistical kept fraction",
           quick=dict(checks=4000, budget_s=45),
           thorough=dict(checks=10000, shards=16, budget_s=300),
-          level_text="Generated (trace-id list, rate list) for sample.DeterministicSampler and collect.StressRelief.GetSampleRate: every decision is repeated, re-made by a fresh instance and by a separately started process; nesting is checked over all drawn rate pairs; the kept fraction is measured on 40000 ids per rate in {2,3,10,100,10^4}. Exploration: finds impurity, non-nested thresholds, wrong reported rates and wrong kept fractions on the ids/rates the generator reaches; does not prove absence.",
-          level_note="Hash and salt constants are not pinned. 'Every node' is approximated by two processes of the same binary on one machine (no cross-architecture or cross-version comparison)."),
+          level_text="Generated (trace-id list, rate list) for sample.DeterministicSampler and collect.StressRelief.GetSampleRate: every decision is repeated, re-made by a fresh instance and by a separately started process; nesting is checked over all drawn rate pairs; the kept fraction is measured on 40000 ids per rate in {2,3,10,100,10^4}. Exploration: finds impurity, non-nested thresholds, wrong reported rates and wrong kept fractions on the ids/rates the generator reaches; does not prove absence. Also: stress-relief reload histories on one instance vs a fresh node; kept fraction on id families with long common prefixes/suffixes; single-byte sensitivity at positions up to 1024; an overlap step (real goroutines, parking logger) in which decisions taken during a rate-changing hot reload must be consistent with the rate reported with them.",
+          level_note="Hash and salt constants are not pinned. 'Every node' is approximated by two processes of the same binary on one machine (no cross-architecture or cross-version comparison). The overlap step observes only the interleavings the parking logger opens (log calls inside UpdateFromConfig); how many reader calls return during a parked log call is reported as a class, never used for the verdict."),
 ]
